@@ -490,7 +490,7 @@ bool TypeAuditor::ViEmptySet(Cursor iter) {
     TokenID::BIGPR,
     TokenID::SMALLPR
   };
-  if (std::find(invalidParents.begin(), invalidParents.end(), iter.Parent().id) != invalidParents.end()) {
+  if (!iter.IsRoot() && std::find(invalidParents.begin(), invalidParents.end(), iter.Parent().id) != invalidParents.end()) {
     OnError(SemanticEID::invalidEmptySetUsage, iter->pos.start);
     return false;
   }
